@@ -1,14 +1,499 @@
-//! C17 harness (stub).
+//! C17: HyperLogLog sketches merge like set union and persist exactly.
+//!
+//! Eight sketch slots (0..7) per case.  Request lines
+//!   case <n> <kind>
+//!   new <slot> <p> <k>            HyperLogLog::new(p, k)                -> ok | err <Variant>
+//!   add <slot> <h,h,...>          add_hash for each hash, in this order -> ok
+//!   show <slot>                   p=.. q=.. k=.. n=<#registers> regs=<run-length registers>
+//!   eq <a> <b>                    PartialEq                             -> true | false
+//!   merge <dst> <src>             dst.merge(&src)                       -> ok | err <Variant>
+//!   refused <dst> <src>           merge again, observing the receiver   -> merged | refused unchanged | refused changed
+//!   save <slot>                   save_to_writer                        -> hdr=<7 bytes hex> len=<n> body=<run-length>
+//!   rt <dst> <src> plain|gz|file|ffi   save -> load into dst            -> <show of dst> same=<dst == src>
+//!   loadraw <dst> <hex>           HyperLogLog::from_reader(bytes)       -> ok | err <Variant> | PANIC
+use sourmash::ffi::hyperloglog::{hll_from_buffer, hll_to_buffer, SourmashHyperLogLog};
+use sourmash::ffi::utils::ForeignObject;
+use sourmash::signature::SigsTrait;
+use sourmash::sketch::hyperloglog::HyperLogLog;
+use std::os::raw::c_char;
 use verif_harness::*;
 
-fn gen(_a: &Args) {
-    let mut o = Out::new();
-    o.case("stub");
+// ------------------------------------------------------------------------------------ generator
+
+/// a hash of one of the boundary-heavy kinds
+fn some_hash(r: &mut Rng, p: u32) -> u64 {
+    match r.below(14) {
+        0 => 0,
+        1 => u64::MAX,
+        // upper 64-p bits all zero
+        2 => r.below(1 << p),
+        3 => (1u64 << p) - 1,
+        // exactly one bit
+        4 => 1u64 << r.below(64),
+        5 => (1u64 << r.range(1, 63)) - 1,
+        // the lowest of the upper bits, the highest bit
+        6 => (1u64 << p) | r.below(1 << p),
+        7 => (1u64 << 63) | r.below(1 << p),
+        // random magnitude
+        8 | 9 => r.bits(64),
+        // one bucket, varying ranks
+        10 => (r.bits(64) << p) | 5,
+        11 => (r.bits(64 - p) << p) | ((1 << p) - 1),
+        _ => r.next(),
+    }
 }
 
-fn step(_: &mut (), ws: &[&str]) -> String {
+fn some_k(r: &mut Rng) -> u64 {
+    // the file header stores k in one byte: k >= 256 is the recorded finding (corpus/C17/ksize256.ops)
+    match r.below(8) {
+        0 => 0,
+        1 => 255,
+        2 => 21,
+        3 => 31,
+        4 => 51,
+        _ => r.range(1, 254),
+    }
+}
+
+fn some_p(r: &mut Rng) -> u32 {
+    // every precision, small ones more often (their register dumps are short)
+    if r.chance(2, 3) {
+        r.range(4, 9) as u32
+    } else {
+        r.range(4, 18) as u32
+    }
+}
+
+fn multiset(r: &mut Rng, p: u32, thorough: bool) -> Vec<u64> {
+    let n = match r.below(20) {
+        0 => 0,
+        1 => 1,
+        2..=12 => r.range(2, 24),
+        13..=17 => r.range(25, 120),
+        18 => r.range(121, 600),
+        _ => {
+            if thorough {
+                r.range(600, 20000)
+            } else {
+                r.range(600, 3000)
+            }
+        }
+    };
+    let mut v: Vec<u64> = Vec::with_capacity(n as usize);
+    for _ in 0..n {
+        if !v.is_empty() && r.chance(1, 8) {
+            let d = *r.pick(&v);
+            v.push(d); // duplicate
+        } else {
+            v.push(some_hash(r, p));
+        }
+    }
+    v
+}
+
+fn shuffle(r: &mut Rng, v: &mut [u64]) {
+    for i in (1..v.len()).rev() {
+        let j = r.below(i as u64 + 1) as usize;
+        v.swap(i, j);
+    }
+}
+
+/// `add` lines for the hashes in the given order, split at random points
+fn emit_adds(o: &mut Out, r: &mut Rng, slot: u32, hs: &[u64]) {
+    let mut i = 0;
+    while i < hs.len() {
+        let n = if r.chance(1, 2) { hs.len() - i } else { r.range(1, (hs.len() - i) as u64) as usize };
+        o.op(&format!("add {} {}", slot, show_nats(hs[i..i + n].iter().copied())));
+        i += n;
+    }
+}
+
+fn gen(a: &Args) {
+    let mut r = Rng::new(a.seed);
+    let mut o = Out::new();
+    let thorough = a.tier == "thorough";
+    let scale = if thorough { 12 } else { 1 };
+
+    // every precision at least once with a dense dump, and the bounds of `new`
+    o.case("new-bounds");
+    for p in [0u64, 1, 2, 3, 4, 5, 17, 18, 19, 20, 32, 63, 64, 65, 255, 256, u32::MAX as u64, u64::MAX] {
+        o.op(&format!("new 0 {} 21", p));
+    }
+    for p in 4..=18u32 {
+        o.case("every-p");
+        let k = some_k(&mut r);
+        let hs: Vec<u64> = (0..if p <= 12 { 4u64 << p } else { 3000 }).map(|_| r.next()).collect();
+        o.op(&format!("new 0 {} {}", p, k));
+        emit_adds(&mut o, &mut r, 0, &hs);
+        o.op(&format!("add 0 0,{},{}", (1u64 << p) - 1, u64::MAX));
+        o.op("show 0");
+        o.op("save 0");
+        o.op("rt 1 0 plain");
+        o.op("rt 2 0 gz");
+        o.op("eq 1 2");
+    }
+
+    // A: insertion order and re-insertion
+    for _ in 0..1200 * scale {
+        o.case("order");
+        let p = some_p(&mut r);
+        let k = some_k(&mut r);
+        let hs = multiset(&mut r, p, thorough);
+        o.op(&format!("new 0 {} {}", p, k));
+        emit_adds(&mut o, &mut r, 0, &hs);
+        o.op("show 0");
+        let orders = r.range(1, 3);
+        for s in 1..=orders as u32 {
+            let mut hs2 = hs.clone();
+            match r.below(4) {
+                0 => hs2.reverse(),
+                1 => hs2.sort_unstable(),
+                _ => shuffle(&mut r, &mut hs2),
+            }
+            // re-insert some of what is already there
+            if !hs2.is_empty() && r.chance(1, 2) {
+                for _ in 0..r.range(1, 5) {
+                    let d = *r.pick(&hs2);
+                    let at = r.below(hs2.len() as u64 + 1) as usize;
+                    hs2.insert(at, d);
+                }
+            }
+            o.op(&format!("new {} {} {}", s, p, k));
+            emit_adds(&mut o, &mut r, s, &hs2);
+            o.op(&format!("show {}", s));
+            o.op(&format!("eq 0 {}", s));
+        }
+    }
+
+    // B: merge algebra and the union homomorphism
+    for _ in 0..900 * scale {
+        o.case("merge");
+        let p = some_p(&mut r);
+        let k = some_k(&mut r);
+        let sets: Vec<Vec<u64>> = (0..3).map(|_| multiset(&mut r, p, thorough)).collect();
+        for (s, hs) in sets.iter().enumerate() {
+            o.op(&format!("new {} {} {}", s, p, k));
+            emit_adds(&mut o, &mut r, s as u32, hs);
+        }
+        // 3 = (A ∪ B) ∪ C
+        o.op(&format!("new 3 {} {}", p, k));
+        o.op("merge 3 0");
+        o.op("merge 3 1");
+        o.op("merge 3 2");
+        o.op("show 3");
+        // 4 = A ∪ (B ∪ C), 5 = B ∪ C
+        o.op(&format!("new 5 {} {}", p, k));
+        o.op("merge 5 2");
+        o.op("merge 5 1");
+        o.op(&format!("new 4 {} {}", p, k));
+        o.op("merge 4 5");
+        o.op("merge 4 0");
+        o.op("show 4");
+        o.op("eq 3 4");
+        // 6 = sketch of the union inserted directly, in some order
+        let mut all: Vec<u64> = sets.concat();
+        shuffle(&mut r, &mut all);
+        o.op(&format!("new 6 {} {}", p, k));
+        emit_adds(&mut o, &mut r, 6, &all);
+        o.op("show 6");
+        o.op("eq 3 6");
+        // idempotence, merging into a non-empty receiver, commutativity on the operands themselves
+        o.op("merge 3 3");
+        o.op("merge 3 0");
+        o.op("show 3");
+        o.op("eq 3 6");
+        match r.below(3) {
+            0 => {
+                // 0 := A ∪ B, 1 := B ∪ A
+                o.op(&format!("new 7 {} {}", p, k));
+                o.op("merge 7 1");
+                o.op("merge 7 0");
+                o.op("merge 0 1");
+                o.op("eq 0 7");
+                o.op("show 0");
+            }
+            1 => {
+                // keep inserting after a merge
+                let more = multiset(&mut r, p, false);
+                emit_adds(&mut o, &mut r, 3, &more);
+                o.op("show 3");
+            }
+            _ => {}
+        }
+    }
+
+    // C: incompatible sketches refuse to merge and stay as they were
+    for _ in 0..500 * scale {
+        o.case("refuse");
+        let (p0, k0) = (some_p(&mut r), some_k(&mut r));
+        let (p1, k1) = match r.below(4) {
+            0 => (p0, if k0 == 21 { 31 } else { 21 }),
+            1 => (if p0 == 18 { 17 } else { p0 + 1 }, k0),
+            2 => (some_p(&mut r), some_k(&mut r)),
+            _ => (if p0 == 4 { 5 } else { p0 - 1 }, k0 + 1),
+        };
+        let a = multiset(&mut r, p0, false);
+        let b = multiset(&mut r, p1, false);
+        o.op(&format!("new 0 {} {}", p0, k0));
+        emit_adds(&mut o, &mut r, 0, &a);
+        o.op(&format!("new 1 {} {}", p1, k1));
+        emit_adds(&mut o, &mut r, 1, &b);
+        o.op("merge 0 1");
+        o.op("refused 0 1");
+        o.op("show 0");
+        o.op("merge 1 0");
+        o.op("refused 1 0");
+        o.op("show 1");
+        if r.chance(1, 2) {
+            // still usable afterwards
+            let more = multiset(&mut r, p0, false);
+            emit_adds(&mut o, &mut r, 0, &more);
+            o.op("show 0");
+        }
+    }
+
+    // D: persistence (plain bytes, gzip through niffler, a file on disk, the C entry points)
+    for _ in 0..500 * scale {
+        o.case("persist");
+        let p = some_p(&mut r);
+        let k = some_k(&mut r);
+        let hs = multiset(&mut r, p, thorough);
+        o.op(&format!("new 0 {} {}", p, k));
+        emit_adds(&mut o, &mut r, 0, &hs);
+        o.op("save 0");
+        let kinds = ["plain", "gz", "file", "ffi"];
+        for (i, kind) in kinds.iter().enumerate() {
+            if i == 0 || r.chance(1, 2) {
+                o.op(&format!("rt {} 0 {}", i + 1, kind));
+                o.op(&format!("eq {} 0", i + 1));
+            }
+        }
+        // a loaded sketch keeps working: more insertions, a merge with the original, save again
+        let more = multiset(&mut r, p, false);
+        emit_adds(&mut o, &mut r, 1, &more);
+        o.op("show 1");
+        o.op("merge 1 0");
+        o.op("rt 5 1 plain");
+        o.op("rt 6 5 gz");
+        o.op("eq 6 1");
+    }
+
+    // E: malformed files
+    o.case("loadraw");
+    let base: Vec<u8> = {
+        let mut v = b"HLL\x01\x04\x3c\x15".to_vec();
+        v.extend((0..16u8).map(|i| i % 7));
+        v
+    };
+    for n in 0..=base.len() {
+        o.op(&format!("loadraw 0 {}", hex(&base[..n])));
+    }
+    for (at, val) in [(0usize, 0x49u8), (1, 0), (2, 0x4d), (3, 0), (3, 2), (4, 64), (4, 200), (4, 255), (4, 5), (4, 3), (4, 0), (5, 0), (5, 255), (6, 0), (6, 255)] {
+        let mut v = base.clone();
+        v[at] = val;
+        o.op(&format!("loadraw 0 {}", hex(&v)));
+        o.op("show 0");
+    }
+    let mut v = base.clone();
+    v.extend_from_slice(b"trailing");
+    o.op(&format!("loadraw 0 {}", hex(&v)));
+    o.op("show 0");
+    for _ in 0..40 * scale {
+        let p = r.range(0, 7) as u8;
+        let mut v = vec![b'H', b'L', b'L', 1, p, r.next() as u8, r.next() as u8];
+        let n = match r.below(3) {
+            0 => 1usize << p,
+            1 => (1usize << p) + r.range(1, 9) as usize,
+            _ => r.below(1 << p) as usize,
+        };
+        v.extend((0..n).map(|_| r.next() as u8));
+        o.op(&format!("loadraw 0 {}", hex(&v)));
+        o.op("show 0");
+    }
+}
+
+// ------------------------------------------------------------------------------------ exec
+
+type St = Vec<Option<HyperLogLog>>;
+
+fn rle<I: IntoIterator<Item = u64>>(xs: I) -> String {
+    let mut out = String::new();
+    let mut cur: Option<(u64, u64)> = None;
+    let mut flush = |out: &mut String, v: u64, n: u64| {
+        if !out.is_empty() {
+            out.push(',');
+        }
+        if n == 1 {
+            out.push_str(&v.to_string());
+        } else {
+            out.push_str(&format!("{}*{}", v, n));
+        }
+    };
+    for x in xs {
+        match cur {
+            Some((v, n)) if v == x => cur = Some((v, n + 1)),
+            Some((v, n)) => {
+                flush(&mut out, v, n);
+                cur = Some((x, 1));
+            }
+            None => cur = Some((x, 1)),
+        }
+    }
+    if let Some((v, n)) = cur {
+        flush(&mut out, v, n);
+    }
+    if out.is_empty() {
+        "-".into()
+    } else {
+        out
+    }
+}
+
+fn saved(h: &HyperLogLog) -> Vec<u8> {
+    let mut buf = Vec::new();
+    h.save_to_writer(&mut buf).unwrap();
+    buf
+}
+
+/// p, q, k are private: they are read back from the saved header (p also = log2 of size())
+fn show(h: &HyperLogLog) -> String {
+    let bytes = saved(h);
+    let n = h.size();
+    format!(
+        "p={} q={} k={} n={} regs={}",
+        bytes[4],
+        bytes[5],
+        h.ksize(),
+        n,
+        rle(h.to_vec())
+    )
+}
+
+fn err_name(e: &sourmash::Error) -> String {
+    let s = format!("{:?}", e);
+    let end = s.find(|c: char| !c.is_alphanumeric()).unwrap_or(s.len());
+    format!("err {}", &s[..end])
+}
+
+fn step(st: &mut St, ws: &[&str]) -> String {
+    let slot = |i: usize| -> usize { ws[i].parse().unwrap() };
     match ws[0] {
         "case" => "ok".into(),
+        "new" => {
+            let p: u64 = ws[2].parse().unwrap();
+            match HyperLogLog::new(p as usize, ws[3].parse().unwrap()) {
+                Ok(h) => {
+                    st[slot(1)] = Some(h);
+                    "ok".into()
+                }
+                Err(e) => {
+                    st[slot(1)] = None;
+                    err_name(&e)
+                }
+            }
+        }
+        "add" => match st[slot(1)].as_mut() {
+            Some(h) => {
+                for x in parse_nats(ws[2]) {
+                    h.add_hash(x);
+                }
+                "ok".into()
+            }
+            None => "none".into(),
+        },
+        "show" => match st[slot(1)].as_ref() {
+            Some(h) => show(h),
+            None => "none".into(),
+        },
+        "eq" => match (st[slot(1)].as_ref(), st[slot(2)].as_ref()) {
+            (Some(a), Some(b)) => (a == b).to_string(),
+            _ => "none".into(),
+        },
+        "merge" | "refused" => {
+            let (d, s) = (slot(1), slot(2));
+            let src = match st[s].clone() {
+                Some(x) => x,
+                None => return "none".into(),
+            };
+            let dst = match st[d].as_mut() {
+                Some(x) => x,
+                None => return "none".into(),
+            };
+            let before = dst.clone();
+            let res = dst.merge(&src);
+            if ws[0] == "merge" {
+                match res {
+                    Ok(()) => "ok".into(),
+                    Err(e) => err_name(&e),
+                }
+            } else {
+                match res {
+                    Ok(()) => "merged".into(),
+                    Err(_) if *dst == before => "refused unchanged".into(),
+                    Err(_) => "refused changed".into(),
+                }
+            }
+        }
+        "save" => match st[slot(1)].as_ref() {
+            Some(h) => {
+                let b = saved(h);
+                format!("hdr={} len={} body={}", hex(&b[..7]), b.len(), rle(b[7..].iter().map(|x| *x as u64)))
+            }
+            None => "none".into(),
+        },
+        "rt" => {
+            let src = match st[slot(2)].clone() {
+                Some(x) => x,
+                None => return "none".into(),
+            };
+            let loaded: Result<HyperLogLog, sourmash::Error> = match ws[3] {
+                "plain" => HyperLogLog::from_reader(&saved(&src)[..]),
+                "gz" | "ffi" => unsafe {
+                    // hll_to_buffer writes gzip through niffler
+                    let mut size = 0usize;
+                    let ptr = hll_to_buffer(SourmashHyperLogLog::from_ref(&src), &mut size);
+                    assert!(!ptr.is_null());
+                    let buf = Vec::from_raw_parts(ptr as *mut u8, size, size);
+                    assert!(buf[0] == 0x1f && buf[1] == 0x8b, "not gzip");
+                    if ws[3] == "gz" {
+                        HyperLogLog::from_reader(&buf[..])
+                    } else {
+                        let p = hll_from_buffer(buf.as_ptr() as *const c_char, buf.len());
+                        assert!(!p.is_null());
+                        Ok(*SourmashHyperLogLog::into_rust(p))
+                    }
+                },
+                "file" => {
+                    let dir = tempfile::tempdir().unwrap();
+                    let path = dir.path().join("x.hll");
+                    src.save(&path).unwrap();
+                    HyperLogLog::from_path(&path)
+                }
+                _ => return "bad-op".into(),
+            };
+            match loaded {
+                Ok(h) => {
+                    let r = format!("{} same={}", show(&h), h == src);
+                    st[slot(1)] = Some(h);
+                    r
+                }
+                Err(e) => {
+                    st[slot(1)] = None;
+                    err_name(&e)
+                }
+            }
+        }
+        "loadraw" => {
+            st[slot(1)] = None;
+            let bytes = unhex(ws.get(2).copied().unwrap_or("-"));
+            match HyperLogLog::from_reader(&bytes[..]) {
+                Ok(h) => {
+                    st[slot(1)] = Some(h);
+                    "ok".into()
+                }
+                Err(e) => err_name(&e),
+            }
+        }
         _ => "bad-op".into(),
     }
 }
@@ -17,7 +502,7 @@ fn main() {
     let a = args();
     match a.mode.as_str() {
         "gen" => gen(&a),
-        "exec" => exec_loop(|| (), step),
+        "exec" => exec_loop(|| vec![None; 8], step),
         _ => panic!("mode"),
     }
 }
